@@ -413,4 +413,202 @@ theorem real_fmtE (p : Nat) (neg : Bool) (m : Nat) (e2 : Int) (rest : List Char)
   rw [split_value] at this
   simpa [List.append_assoc] using this
 
+/-! ### the digits and the exponent `sciDigits` returns are bounded -/
+
+theorem digitsRev_length_le : ∀ (f n k : Nat), n < 10 ^ k → 1 ≤ k → (digitsRev f n).length ≤ k
+  | 0, _, _, _, _ => by simp [digitsRev]
+  | f+1, n, k, h, hk => by
+    simp only [digitsRev, List.length_cons]
+    split
+    · simp; omega
+    · rename_i h0
+      have hk2 : 2 ≤ k := by
+        rcases Nat.lt_or_ge k 2 with h2 | h2
+        · have : k = 1 := by omega
+          subst this
+          simp at h; omega
+        · exact h2
+      have hlt : n / 10 < 10 ^ (k - 1) := by
+        have : 10 ^ k = 10 ^ (k - 1) * 10 := by rw [← Nat.pow_succ]; congr 1; omega
+        rw [this] at h
+        exact Nat.div_lt_of_lt_mul (by rw [Nat.mul_comm]; exact h)
+      have := digitsRev_length_le f (n / 10) (k - 1) hlt (by omega)
+      omega
+
+theorem natDigits_length_le (n k : Nat) (h : n < 10 ^ k) (hk : 1 ≤ k) : (natDigits n).length ≤ k := by
+  unfold natDigits; rw [List.length_reverse]; exact digitsRev_length_le _ _ _ h hk
+
+theorem lt_pow_digitsRev_length : ∀ (f n : Nat), n < f → n < 10 ^ (digitsRev f n).length
+  | 0, n, h => by omega
+  | f+1, n, h => by
+    simp only [digitsRev, List.length_cons]
+    split
+    · rename_i h0; simp; omega
+    · rename_i h0
+      have ih := lt_pow_digitsRev_length f (n / 10) (by omega)
+      rw [Nat.pow_succ]
+      omega
+
+theorem lt_pow_natDigits_length (n : Nat) : n < 10 ^ (natDigits n).length := by
+  unfold natDigits; rw [List.length_reverse]; exact lt_pow_digitsRev_length _ _ (by omega)
+
+theorem natDigits_length_pos (n : Nat) : 1 ≤ (natDigits n).length := by
+  obtain ⟨c, t, h, _⟩ := natDigits_cons n
+  rw [h]; simp
+
+theorem findShift_ge : ∀ (f n d k : Nat), k ≤ findShift f n d k
+  | 0, _, _, _ => by simp [findShift]
+  | f+1, n, d, k => by
+    simp only [findShift]
+    split
+    · exact Nat.le_refl _
+    · have := findShift_ge f n d (k + 1); omega
+
+theorem findShift_le : ∀ (f n d k : Nat), findShift f n d k ≤ k + f
+  | 0, _, _, _ => by simp [findShift]
+  | f+1, n, d, k => by
+    simp only [findShift]
+    split
+    · omega
+    · have := findShift_le f n d (k + 1); omega
+
+/-- all shifts tried before the result were too small -/
+theorem findShift_inv : ∀ (f n d k : Nat), 1 ≤ k → n * 10 ^ (k - 1) < d → n * 10 ^ (findShift f n d k - 1) < d
+  | 0, _, _, _, _, h => by simpa [findShift] using h
+  | f+1, n, d, k, hk, h => by
+    simp only [findShift]
+    split
+    · exact h
+    · rename_i hlt
+      exact findShift_inv f n d (k + 1) (by omega) (by simpa using Nat.lt_of_not_ge hlt)
+
+/-- the quotient `sciDigits` rounds has at most `p + 1` digits: the decimal exponent `decExp` is not too small -/
+theorem sci_quot_lt (p n d : Nat) (hd : 0 < d) :
+    (if (p : Int) - decExp n d ≥ 0 then n * 10 ^ ((p : Int) - decExp n d).toNat else n) /
+      (if (p : Int) - decExp n d ≥ 0 then d else d * 10 ^ (-((p : Int) - decExp n d)).toNat) < 10 ^ (p + 1) := by
+  unfold decExp
+  by_cases hnd : n ≥ d
+  · rw [if_pos hnd]
+    have hL1 := natDigits_length_pos (n / d)
+    have hL := lt_pow_natDigits_length (n / d)
+    generalize (natDigits (n / d)).length = L at hL1 hL
+    have hn : n < d * 10 ^ L := by
+      have h1 : n < d * (n / d + 1) := Nat.lt_mul_div_succ n hd
+      have h2 : d * (n / d + 1) ≤ d * 10 ^ L := Nat.mul_le_mul_left d hL
+      omega
+    by_cases hs : (p : Int) - ((L : Int) - 1) ≥ 0
+    · rw [if_pos hs, if_pos hs]
+      have ht : ((p : Int) - ((L : Int) - 1)).toNat = p + 1 - L := by omega
+      rw [ht]
+      apply Nat.div_lt_of_lt_mul
+      have hpow : 10 ^ L * 10 ^ (p + 1 - L) = 10 ^ (p + 1) := by rw [← Nat.pow_add]; congr 1; omega
+      calc n * 10 ^ (p + 1 - L) < d * 10 ^ L * 10 ^ (p + 1 - L) :=
+              Nat.mul_lt_mul_of_pos_right hn (Nat.pow_pos (by decide))
+        _ = d * 10 ^ (p + 1) := by rw [Nat.mul_assoc, hpow]
+    · rw [if_neg hs, if_neg hs]
+      have ht : (-((p : Int) - ((L : Int) - 1))).toNat = L - (p + 1) := by omega
+      rw [ht]
+      apply Nat.div_lt_of_lt_mul
+      have hpow : 10 ^ (L - (p + 1)) * 10 ^ (p + 1) = 10 ^ L := by rw [← Nat.pow_add]; congr 1; omega
+      calc n < d * 10 ^ L := hn
+        _ = d * 10 ^ (L - (p + 1)) * 10 ^ (p + 1) := by rw [Nat.mul_assoc, hpow]
+  · rw [if_neg hnd]
+    have hk1 := findShift_ge ((natDigits d).length + 2) n d 1
+    have hinv := findShift_inv ((natDigits d).length + 2) n d 1 (Nat.le_refl _) (by simpa using Nat.lt_of_not_ge hnd)
+    generalize findShift ((natDigits d).length + 2) n d 1 = k at hk1 hinv
+    have hs : (p : Int) - -(k : Int) ≥ 0 := by omega
+    rw [if_pos hs, if_pos hs]
+    have ht : ((p : Int) - -(k : Int)).toNat = p + k := by omega
+    rw [ht]
+    apply Nat.div_lt_of_lt_mul
+    have hpow : 10 ^ (k - 1) * 10 ^ (p + 1) = 10 ^ (p + k) := by rw [← Nat.pow_add]; congr 1; omega
+    calc n * 10 ^ (p + k) = n * 10 ^ (k - 1) * 10 ^ (p + 1) := by rw [Nat.mul_assoc, hpow]
+      _ < d * 10 ^ (p + 1) := Nat.mul_lt_mul_of_pos_right hinv (Nat.pow_pos (by decide))
+
+/-- **the digits `sciDigits` returns fit `p + 1` places** -/
+theorem sciDigits_lt (p n d : Nat) (hd : 0 < d) : (sciDigits p n d).1 < 10 ^ (p + 1) := by
+  have hq := sci_quot_lt p n d hd
+  unfold sciDigits
+  simp only
+  generalize (if (p : Int) - decExp n d ≥ 0 then n * 10 ^ ((p : Int) - decExp n d).toNat else n) = num at hq ⊢
+  generalize (if (p : Int) - decExp n d ≥ 0 then d else d * 10 ^ (-((p : Int) - decExp n d)).toNat) = den at hq ⊢
+  have key : ∀ (m : Nat) (x y : Int), m ≤ num / den + 1 →
+      (if m ≥ 10 ^ (p + 1) then (m / 10, x) else (m, y)).1 < 10 ^ (p + 1) := by
+    intro m x y hm
+    have hpos : 0 < 10 ^ (p + 1) := Nat.pow_pos (by decide)
+    split
+    · apply Nat.div_lt_of_lt_mul; omega
+    · simp only; omega
+  apply key
+  split <;> omega
+
+/-- bounds of the decimal exponent in terms of the sizes of numerator and denominator -/
+theorem decExp_bounds (n d : Nat) :
+    -((natDigits d).length + 3 : Int) ≤ decExp n d ∧ decExp n d < (natDigits n).length := by
+  unfold decExp
+  split
+  · rename_i hnd
+    have h1 := natDigits_length_pos (n / d)
+    have h2 : (natDigits (n / d)).length ≤ (natDigits n).length :=
+      natDigits_length_le _ _ (Nat.lt_of_le_of_lt (Nat.div_le_self n d) (lt_pow_natDigits_length n)) (natDigits_length_pos n)
+    omega
+  · have h1 := findShift_le ((natDigits d).length + 2) n d 1
+    have h2 := natDigits_length_pos n
+    omega
+
+theorem sciDigits_exp_bounds (p n d : Nat) :
+    -((natDigits d).length + 3 : Int) ≤ (sciDigits p n d).2 ∧ (sciDigits p n d).2 ≤ (natDigits n).length := by
+  have h := decExp_bounds n d
+  have key : ∀ (c : Prop) [Decidable c] (a b : Nat),
+      -((natDigits d).length + 3 : Int) ≤ (if c then (a, decExp n d + 1) else (b, decExp n d)).2 ∧
+      (if c then (a, decExp n d + 1) else (b, decExp n d)).2 ≤ (natDigits n).length := by
+    intro c _ a b
+    split <;> simp only <;> omega
+  unfold sciDigits
+  simp only
+  exact key _ _ _
+
+/-! ### every binary64 value -/
+
+/-- finite values of binary64 in the model's representation `± m · 2^e` -/
+def isDouble : Val → Bool
+  | .fin _ m e => decide (m < 2 ^ 53) && decide (-1074 ≤ e) && decide (e ≤ 971)
+  | _ => true
+
+set_option exponentiation.threshold 2000 in
+theorem ratOf_bounds (neg : Bool) (m : Nat) (e : Int) (h : isDouble (.fin neg m e) = true) :
+    (Val.fin neg m e).ratOf.1 < 10 ^ 309 ∧ 0 < (Val.fin neg m e).ratOf.2 ∧ (Val.fin neg m e).ratOf.2 < 10 ^ 324 := by
+  simp only [isDouble, Bool.and_eq_true, decide_eq_true_eq] at h
+  obtain ⟨⟨hm, hlo⟩, hhi⟩ := h
+  by_cases he : e ≥ 0
+  · simp only [Val.ratOf, he, if_true]
+    refine ⟨?_, by decide, by decide⟩
+    have h1 : 2 ^ e.toNat ≤ 2 ^ 971 := Nat.pow_le_pow_right (by decide) (by omega)
+    have h2 : m * 2 ^ e.toNat < 2 ^ 53 * 2 ^ 971 :=
+      Nat.lt_of_lt_of_le (Nat.mul_lt_mul_of_pos_right hm (Nat.pow_pos (by decide))) (Nat.mul_le_mul_left _ h1)
+    exact Nat.lt_trans h2 (by decide)
+  · simp only [Val.ratOf, he, if_false]
+    have h1 : 2 ^ (-e).toNat ≤ 2 ^ 1074 := Nat.pow_le_pow_right (by decide) (by omega)
+    exact ⟨Nat.lt_trans hm (by decide), Nat.pow_pos (by decide), Nat.lt_of_le_of_lt h1 (by decide)⟩
+
+/-- **C19, byte-level round trip of one value in scientific format, every binary64 value.**  For every finite
+non-zero double `v = ± m·2^e`, every precision `p ≥ 1` and everything that may follow the token (`rest` not
+starting with a digit): `double_` applied to the bytes `%.<p>e` wrote consumes exactly the token and returns
+`scaled ± ds (ex - p)`, spirit's conversion of the decimal `ds · 10^(ex-p)` with `(ds, ex) = sciDigits p v` —
+`v` rounded (to nearest, ties to even) to `p + 1` significant decimal digits.  This is what "reproduces the data
+up to the printed precision" means for `exportCSV` (precision 10 ⇒ 11 significant digits): the re-imported
+value is the reading of the decimal rounding, in general not the original double. -/
+theorem real_fmtE_double (p : Nat) (neg : Bool) (m : Nat) (e2 : Int) (rest : List Char) (hp : 0 < p) (hm : m ≠ 0)
+    (hv : isDouble (.fin neg m e2) = true) (hr : NoDigitHead rest) :
+    real (fmtE p (Val.fin neg m e2) ++ rest)
+      = scaled neg (sciDigits p (Val.fin neg m e2).ratOf.1 (Val.fin neg m e2).ratOf.2).1
+          ((sciDigits p (Val.fin neg m e2).ratOf.1 (Val.fin neg m e2).ratOf.2).2 - (p : Int)) rest := by
+  obtain ⟨hn, hd0, hd⟩ := ratOf_bounds neg m e2 hv
+  have hb := sciDigits_exp_bounds p (Val.fin neg m e2).ratOf.1 (Val.fin neg m e2).ratOf.2
+  have h1 := natDigits_length_le _ 309 hn (by decide)
+  have h2 := natDigits_length_le _ 324 hd (by decide)
+  have h := real_fmtE p neg m e2 rest hp hm (by omega) hr
+  rw [Nat.mod_eq_of_lt (sciDigits_lt p _ _ hd0)] at h
+  exact h
+
 end SharkVerif.Import.Export
